@@ -123,6 +123,8 @@ class CWMH(ProposalBasedSampler):
     @proposal.setter
     def proposal(self, value):
         self._proposal = value
+        if self._proposal is not None:
+            self.validate_proposal()
 
     def step(self):
         # Initialize x_t which is used to store the current CWMH sample
